@@ -118,9 +118,24 @@ func checkPosaScanDepth(c *core.Ctx, pkg string, sync *ssa.Function, gpCall func
 	cells := map[string]bool{}
 	// (1) the enforcement window in SyncBlockHeader is len(<result 0>.Validators)/2
 	nWin := 0
-	for _, cd := range ir.Conds(sync) {
-		b, ok := cd.V.(*ssa.BinOp)
-		if !ok || b.Op != token.LEQ {
+	// the comparison may stand in SyncBlockHeader or in a small predicate helper it branches on (the helper's
+	// parameters are bound to the call's arguments; integer conversions are looked through)
+	peel := func(v ssa.Value) ssa.Value {
+		for i := 0; i < 6; i++ {
+			v = ir.Strip(v)
+			cv, isCv := v.(*ssa.Convert)
+			if !isCv {
+				break
+			}
+			v = cv.X
+		}
+		return v
+	}
+	winSites, releaseWin := cmpSites(sync)
+	defer releaseWin()
+	for _, st := range winSites {
+		b := st.B
+		if b.Op != token.LEQ {
 			continue
 		}
 		add, isAdd := b.Y.(*ssa.BinOp)
@@ -132,9 +147,9 @@ func checkPosaScanDepth(c *core.Ctx, pkg string, sync *ssa.Function, gpCall func
 		}
 		nWin++
 		okW := false
-		if q, isQ := ir.Strip(add.Y).(*ssa.BinOp); isQ && q.Op == token.QUO {
+		if q, isQ := peel(add.Y).(*ssa.BinOp); isQ && q.Op == token.QUO {
 			if k, okk := ir.ConstInt(q.Y); okk && k == 2 {
-				if ln, isLen := q.X.(*ssa.Call); isLen {
+				if ln, isLen := peel(q.X).(*ssa.Call); isLen {
 					if bi, isB := ln.Common().Value.(*ssa.Builtin); isB && bi.Name() == "len" {
 						if base, f, okf := fieldLoad(ln.Common().Args[0]); okf && f == "Validators" {
 							okW = true
